@@ -70,6 +70,29 @@ def add_matrices(rng, nas, masks, variant=None):
     return tags
 
 
+def with_extra_points(rng, nas, masks, share=0.5):
+    """a copy of the dictionary in which about `share` of the tables got 1-3 extra points (scalar e-set rows: in the p-set,
+    not in the g-set) in front of, between (not inside a grid's six rows) and behind their DOF; returns (copy, set of the
+    SE whose table was changed).  The stored matrices are shared: their shapes depend on the g-set only."""
+    from props import c18_nas as N
+
+    out = dict(nas)
+    out["uset"] = dict(nas["uset"])
+    changed = set()
+    for se, u in nas["uset"].items():
+        if rng.random() >= share:
+            continue
+        rows = [[int(i), int(d), int(w)] for (i, d), w in zip(u.index.tolist(), u["nasset"].values.tolist())]
+        for k in range(rng.randint(1, 3)):
+            pos = rng.choice([0, 0, len(rows), rng.randint(0, len(rows))])
+            while 0 < pos < len(rows) and rows[pos][1] > 1:
+                pos -= 1
+            rows.insert(pos, [9000 + 10 * int(se) + k, 0, int(masks["e"])])
+        out["uset"][se] = N.mk_table(rows)
+        changed.add(se)
+    return out, changed
+
+
 def _mat(m):
     a = np.asarray(m, dtype=float)
     if a.ndim != 2:
